@@ -623,6 +623,28 @@ func evalFault(r *ev.Run, key echx.KeyPair, f fault) {
 		}
 	}
 	r.Eval(string(f.stream)+fmt.Sprint(f.noKeys), f.Name+" -> "+oc)
+	// round 13: the verdict on an illegal hello is the verdict of every key list that holds the key - in particular of lists in
+	// which the key stands BEHIND entries the server cannot use for this hello: the hello's own config (same id, same suites)
+	// paired with a private key that does not parse, and another key pair's config under the same id. What the single-key run
+	// produced (judged above) is what these lists must produce: error class, alert bytes, close, nothing readable.
+	if !f.noKeys && res.Panic == nil {
+		t := keys[0]
+		unusable := ech.Key{Config: slices.Clone(t.Config), PrivateKey: []byte{1, 2, 3}}
+		other := echx.NewKey("c04-another-pair", key.Cfg.ID, echx.AllSuites, "another.example").Key()
+		sig := func(x echx.Result) string {
+			return fmt.Sprintf("panic=%v err=%s accepted=%v forwarded=%x client=%x closed=%v", x.Panic != nil, echx.ErrClass(x.Err), x.Accepted, x.Forwarded, x.ClientOut, x.Closed > 0)
+		}
+		for vi, ks := range [][]ech.Key{{unusable, t}, {other, t}, {other, unusable, t, unusable}} {
+			res2 := echx.Feed(f.stream, ks)
+			oc2 := "same verdict behind other keys"
+			if sig(res2) != sig(res) {
+				oc2 = "verdict differs behind other keys"
+				rp := map[string]any{"fault": f, "stream": echx.Hex(f.stream), "keys": echx.KeysDoc(ks)}
+				r.Violation("verdict-depends-on-keys-in-front:"+k, fmt.Sprintf("fault %s %s: with the key alone %s; with key list variant %d (the key behind a same-id entry the server cannot use) %s", f.Name, f.Arg, sig(res), vi, sig(res2)), rp)
+			}
+			r.Eval(string(f.stream)+fmt.Sprint("keys-in-front", vi), oc2)
+		}
+	}
 }
 
 func alertKey(out []byte) string {
